@@ -15,6 +15,7 @@ func asaSpaces(ctx *core.Ctx) []*space {
 		asaSpellSpace(),
 		asaVPNSpace(),
 		asaPeerSpace(),
+		asaSharedGroupSpace(),
 		asaEditSpace(),
 		noiseSpace("ASA"),
 		corpusSpace("ASA"),
